@@ -18,6 +18,7 @@ HERE = os.path.dirname(os.path.abspath(__file__))
 ROOT = os.path.dirname(HERE)
 
 MODEL_CONFIG = "rename_bindings=1 strict_toplevel=1 flat_synclos=0 unwrapped_toplevel=0"
+STRIP_BOUND = 10000       # SEXP_STRIP_SYNCLOS_BOUND of the scratch build (printed by the harness; a parameter of the model)
 
 
 # =====================================================================================================
@@ -39,6 +40,8 @@ class Scen:
         self.nid = 0
         self.ncell = 0
         self.closed_over = set()   # envs some closure closes over
+        self.ncopy = 0
+        self.xenv = {}             # script env number -> judge env (copied chain)
 
     # -- construction
     def emit(self, s):
@@ -90,6 +93,7 @@ class Scen:
 
     def loc1(self, k, j, localp):
         kk = self.key(j)
+        k = self.xenv.get(k, k)
         while k >= 0:
             for (jj, c) in self.rens[k]:
                 if self.key(jj) == kk:
@@ -102,15 +106,16 @@ class Scen:
             k = self.parent[k]
         return None
 
-    def cell(self, k, j, localp):
+    def cell(self, k, j, localp, fv=None):
+        fv = self.fv if fv is None else fv
         nm = self.key(self.name(j))
         redirected = False
         pos = None
-        for idx, it in enumerate(self.fv):
+        for idx, it in enumerate(fv):
             if it[0] == 'i' and self.key(it[1]) == nm:
                 pos = idx; break
         if pos is not None:
-            for it in self.fv[pos:]:
+            for it in fv[pos:]:
                 if it[0] == 'e':
                     k = it[1]; redirected = True; break
         c = self.loc1(k, j, localp)
@@ -121,6 +126,54 @@ class Scen:
             j = x
             c = self.loc1(k, j, localp)
         return c
+
+    # -- round 3: syntactic closures around combinations (analysis enters them: eval.c:1216-1224, 235-255)
+    def new_form(self, xs):
+        j = self.nid; self.nid += 1
+        self.idents[j] = ('form', list(xs))
+        self.emit("form %d %d %s" % (j, len(xs), " ".join(str(x) for x in xs)))
+        return j
+
+    def is_ident(self, j):
+        d = self.idents[j]
+        while d[0] == 'clo':
+            d = self.idents[d[3]]
+        return d[0] == 'sym'
+
+    def extend(self, fv_nonempty, ce, k):
+        """specification of sexp_extend_synclo_env: with free names in the context every frame of k's chain is
+        copied (bindings AND renames) and the context environment ce becomes the parent of the last copy"""
+        k, ce = self.xenv.get(k, k), self.xenv.get(ce, ce)
+        if not fv_nonempty:
+            return k
+        chain = []
+        while k >= 0:
+            chain.append(k); k = self.parent[k]
+        ids = []
+        for orig in chain:
+            self.ncopy += 1
+            n = 100000 + self.ncopy
+            self.binds[n] = list(self.binds[orig]); self.rens[n] = list(self.rens[orig])
+            ids.append(n)
+        for a, b in zip(ids, ids[1:] + [ce]):
+            self.parent[a] = b
+        return ids[0]
+
+    def new_xenv(self, k2, k, ce):
+        self.xenv[k2] = self.extend(bool(self.fv), ce, k)
+        self.emit("xenv %d %d %d" % (k2, k, ce))
+
+    def ana(self, ce, j, fv=None):
+        fv = self.fv if fv is None else fv
+        d = self.idents[j]
+        if self.is_ident(j):
+            c = self.cell(ce, j, 0, fv)
+            return "-" if c is None else str(c)
+        if d[0] == 'form':
+            return "(" + " ".join(self.ana(ce, x, fv) for x in d[1]) + ")"
+        _, e, cfv, x = d
+        fv2 = ([('i', v) for v in cfv] + [('e', ce)] + list(fv)) if cfv else list(fv)
+        return self.ana(self.extend(bool(fv2), ce, e), x, fv2)
 
     def ideq(self, k1, j1, k2, j2):
         c1, c2 = self.cell(k1, j1, 0), self.cell(k2, j2, 0)
@@ -190,12 +243,98 @@ def gen_scenario(rng, nq):
     return sc, qs
 
 
+def gen_synclo_scenario(rng):
+    """round 3: the sc-macro-transformer / make-syntactic-closure situation.  A use environment U whose frames carry
+    RENAME entries (imports: name -> cell of a library environment) besides bindings, a macro environment M, frames
+    the macro's template introduces on top of M binding the same NAMES, closures over U with (and without) free
+    names around combinations of identifiers, nested; the environment such a closure is analysed in is built by the
+    real sexp_extend_synclo_env (xenv) and by the real analyze (ana)."""
+    sc = Scen(rng)
+    sc.emit("reset")
+    nsym = rng.choice([3, 4, 5])
+    syms = [sc.new_sym(s) for s in range(nsym)]
+    g = sc.new_env(-1)                                   # global frame
+    for j in syms:
+        sc.bind(g, j)        # every name has a global binding: analyze never has to create an undefined top-level
+                             # cell (a mutation of the environment that is outside the model)
+    lib = sc.new_env(g)                                  # a library: its cells are what imports point to
+    for j in syms:
+        if rng.random() < 0.8:
+            sc.bind(lib, j)
+    libcells = [c for (_, c) in sc.binds[lib]]
+    # use environment: 1-3 frames, imports (rename entries, possibly under another name) and own definitions
+    u = g
+    uframes = []
+    for _ in range(rng.choice([1, 2, 2, 3])):
+        u = sc.new_env(u); uframes.append(u)
+        for j in syms:
+            r = rng.random()
+            if r < 0.45 and libcells:
+                sc.ren(u, j, rng.choice(libcells))       # (import (rename (lib) (x j))) / (only (lib) j)
+            elif r < 0.6:
+                sc.bind(u, j)
+    # macro environment: the library itself, or the program (macro defined where it is used)
+    m = rng.choice([lib, u, g])
+    # what the template introduces: 1-2 frames binding plain symbols (`(lambda (exit) (let ((tmp ..) (first ..)) ..))`)
+    ce = m
+    for _ in range(rng.choice([1, 2, 2])):
+        ce = sc.new_env(ce)
+        for j in rng.sample(syms, rng.choice([1, 2, min(3, nsym)])):
+            sc.bind(ce, j)
+    # identifiers of the closed user code: bare symbols, renamed symbols (closures over M or U)
+    clos = []
+    for _ in range(rng.choice([1, 2, 3])):
+        x = rng.choice(syms + clos) if (clos and rng.random() < 0.3) else rng.choice(syms)
+        fv = [] if rng.random() < 0.7 else [rng.choice(syms)]
+        clos.append(sc.new_clo(rng.choice([m, u, ce]), fv, x))
+    def free_names():
+        r = rng.random()
+        if r < 0.2:
+            return []
+        return rng.sample(syms, rng.choice([1, 1, 2]))
+    def form(depth):
+        xs = []
+        for _ in range(rng.choice([2, 3, 4])):
+            if depth > 0 and rng.random() < 0.3:
+                inner = form(depth - 1)
+                if rng.random() < 0.7:
+                    inner = sc.new_clo(rng.choice(uframes + [m]), free_names(), inner)
+                xs.append(inner)
+            else:
+                xs.append(rng.choice(syms + syms + clos))
+        return sc.new_form(xs)
+    user = sc.new_clo(u, free_names(), form(rng.choice([0, 1, 1, 2])))     # the closed user form
+    top = user
+    if rng.random() < 0.5:
+        # the whole transformer result closed in M with no free names (what sc-macro-transformer returns), used in U
+        top = sc.new_clo(m, [], sc.new_form([rng.choice(syms), user, rng.choice(syms + clos)]))
+    qs = []
+    # an enclosing context fv list (the closure is itself inside closed code) in a third of the scenarios
+    if rng.random() < 0.33:
+        items = [('i', rng.choice(syms)) for _ in range(rng.choice([1, 2]))] + [('e', rng.choice(uframes + [ce]))]
+        sc.set_fv(items)
+    # the environment of closed code, queried directly: needs a non-empty fv list to copy at all
+    if not sc.fv and rng.random() < 0.8:
+        sc.set_fv([('i', v) for v in rng.sample(syms, rng.choice([1, 2]))] + [('e', ce)])
+    x2 = 3000
+    sc.new_xenv(x2, u, ce)
+    for _ in range(rng.choice([4, 6, 8])):
+        j = rng.choice(syms + syms + clos)
+        lp = 1 if rng.random() < 0.1 else 0
+        exp = sc.cell(x2, j, lp)
+        qs.append(("cell %d %d %d" % (x2, j, lp), "-" if exp is None else str(exp), "env-cell:closed-code" + (":local" if lp else "")))
+    # the real analyze, last (it may create undefined top-level cells)
+    at = u if top is not user else ce
+    qs.append(("ana %d %d" % (at, top), sc.ana(at, top), "analyze:closed-code"))
+    return sc, qs
+
+
 def run_inner(ctx, d, exe, nscen):
     rng = ctx.rng
     emb = B.cc_embed(d, os.path.join(ROOT, "harness", "embed_c07.c"), os.path.join(d, "embed_c07"))
     lines, meta = ["config"], [None]
-    for s in range(nscen):
-        sc, qs = gen_scenario(rng, rng.choice([10, 20, 30]))
+    for s in range(2 * nscen):
+        sc, qs = gen_scenario(rng, rng.choice([10, 20, 30])) if s < nscen else gen_synclo_scenario(rng)
         for l in sc.lines:
             lines.append(l); meta.append(None)
         for (q, exp, cls) in qs:
@@ -205,8 +344,12 @@ def run_inner(ctx, d, exe, nscen):
     if r.returncode != 0 or len(io) < len(lines):
         ctx.broken("inner-correspondence:C07", "embedding harness died rc=%s after %d/%d answers: %s" % (r.returncode, len(io), len(lines), r.stderr[-500:]))
         return
-    if io[0] != MODEL_CONFIG:
+    global STRIP_BOUND
+    mcfg = re.match(r"(.*) strip_bound=(\d+)$", io[0])
+    if not mcfg or mcfg.group(1) != MODEL_CONFIG:
         ctx.broken("build-configuration:C07", "the model mirrors %s but the scratch build has %s" % (MODEL_CONFIG, io[0]))
+    else:
+        STRIP_BOUND = int(mcfg.group(2))
     mo = ["config"] + ctx.run_model(exe, lines[1:])
     sampled = 0
     for q, m, i, mt in zip(lines, mo, io, meta):
@@ -216,7 +359,7 @@ def run_inner(ctx, d, exe, nscen):
         ctx.count(1, key=(tuple(script), q), nontrivial=(cls != "env-cell:symbol-key"))
         ctx.cov["traces_validated_against_impl"] += 1
         if m == i == exp:
-            if sampled < 2 and cls.startswith("env-cell:closure-key") and i != "-":
+            if sampled < 4 and (cls.startswith("env-cell:closure-key") or (sampled >= 2 and cls == "analyze:closed-code")) and i != "-":
                 ctx.sample(dict(kind="inner", script=script[1:], query=q, model=m, impl=i)); sampled += 1
             continue
         replay = "printf '%%s\\n' %s | LD_LIBRARY_PATH=%s %s   # last line answers the query; expected %s" % (
@@ -229,6 +372,162 @@ def run_inner(ctx, d, exe, nscen):
                           why="C differs from the judge (and the model differs too)")
         else:
             ctx.broken("correspondence:" + cls, "model differs from C and from the judge: %s model=%s impl=%s script=%s" % (q, m, i, script))
+
+
+# =====================================================================================================
+# K-inner (quoted data): the real sexp_strip_synclos vs the extracted two-stage model (contains + strip_b)
+# =====================================================================================================
+def d_tokens(x):
+    t = x[0]
+    if t in 'SL':
+        return "%s%d" % (t, x[1])
+    if t == 'N':
+        return "N"
+    if t == 'P':
+        return "P %s %s" % (d_tokens(x[1]), d_tokens(x[2]))
+    if t == 'V':
+        return " ".join(["V%d" % len(x[1])] + [d_tokens(y) for y in x[1]])
+    return "C " + d_tokens(x[1])
+
+
+def d_strip(x):
+    """the specification: every closure layer disappears, everything else stays"""
+    t = x[0]
+    if t == 'C':
+        return d_strip(x[1])
+    if t == 'P':
+        return ('P', d_strip(x[1]), d_strip(x[2]))
+    if t == 'V':
+        return ('V', [d_strip(y) for y in x[1]])
+    return x
+
+
+def d_hgt(x):
+    t = x[0]
+    if t == 'C':
+        return d_hgt(x[1])
+    if t == 'P':
+        return 1 + max(d_hgt(x[1]), d_hgt(x[2]))
+    if t == 'V':
+        return 1 + max([d_hgt(y) for y in x[1]] + [0])
+    return 0
+
+
+def d_list(xs, tail=('N',)):
+    for x in reversed(xs):
+        tail = ('P', x, tail)
+    return tail
+
+
+def gen_strip_cases(rng, nrandom):
+    """(datum, class): one closure at EXACTLY ONE position, systematically over the position classes, then random data"""
+    out = []
+    lit = lambda: ('L', rng.randrange(0, 50))
+    def clo():
+        r = rng.random()
+        inner = ('S', rng.randrange(0, 6))
+        if r < 0.6:
+            return ('C', inner)
+        if r < 0.75:
+            return ('C', ('C', inner))                                  # renamed twice
+        if r < 0.9:
+            return ('C', d_list([lit(), inner]))                        # a closure around a whole form
+        return ('C', d_list([lit()], ('C', inner)))                     # ... whose own dotted tail is a closure
+    # car at nesting depth d, at the first / middle / last position of its list
+    for dpt in range(0, 5):
+        for pos in range(3):
+            x = clo()
+            for _ in range(dpt + 1):
+                xs = [lit(), lit()]; xs.insert(pos, x); x = d_list(xs)
+            out.append((x, "car-depth-%d" % dpt))
+    # the dotted tail after k elements (no closure in any car), alone and nested
+    for k in range(1, 8):
+        out.append((d_list([lit() for _ in range(k)], clo()), "dotted-tail"))
+        out.append((d_list([lit(), d_list([lit() for _ in range(k)], clo()), lit()]), "dotted-tail:nested"))
+        out.append((('V', [lit(), d_list([lit() for _ in range(k)], clo())]), "dotted-tail:in-vector"))
+    # vector slots: first / middle / last
+    for n in range(1, 6):
+        for pos in sorted(set([0, n // 2, n - 1])):
+            xs = [lit() for _ in range(n)]; xs[pos] = clo()
+            cls = "vector-slot:" + ("first" if pos == 0 else "last" if pos == n - 1 else "middle")
+            out.append((('V', xs), cls))
+            out.append((d_list([lit(), ('V', xs)]), cls + ":in-list"))
+            out.append((d_list([lit()], ('V', xs)), cls + ":vector-as-dotted-tail"))
+    # association lists with non-symbol keys: closures only in the cdrs of the entries
+    for n in range(1, 5):
+        for which in range(n):
+            ents = [('P', lit(), (clo() if e == which else ('S', e))) for e in range(n)]
+            out.append((d_list(ents), "alist-cdr"))
+        out.append((d_list([('P', lit(), clo()) for _ in range(n)]), "alist-cdr:all"))
+    # nested quasi-quotation written as data: (quasiquote (1 (unquote X) . Y))
+    for _ in range(4):
+        qq, uq = ('S', 20), ('S', 21)
+        a, b = (clo(), lit()) if rng.random() < 0.5 else (lit(), clo())
+        out.append((d_list([qq, d_list([lit(), d_list([uq, a])], b)]), "quasiquote"))
+    # the closure is the whole datum
+    for _ in range(3):
+        out.append((clo(), "whole-datum"))
+    # random data with 0-3 closures anywhere
+    def rnd(d):
+        r = rng.random()
+        if d <= 0 or r < 0.3:
+            q = rng.random()
+            return lit() if q < 0.5 else ('S', rng.randrange(0, 6)) if q < 0.75 else ('N',) if q < 0.82 else ('C', ('S', rng.randrange(0, 6)))
+        if r < 0.7:
+            tail = ('N',) if rng.random() < 0.6 else rnd(0)
+            return d_list([rnd(d - 1) for _ in range(rng.choice([1, 2, 3, 4]))], tail)
+        if r < 0.9:
+            return ('V', [rnd(d - 1) for _ in range(rng.choice([0, 1, 2, 3]))])
+        return ('C', rnd(d - 1))
+    for _ in range(nrandom):
+        out.append((rnd(rng.choice([1, 2, 3, 4])), "random"))
+    return out
+
+
+def run_strip(ctx, d, exe, nrandom):
+    rng = ctx.rng
+    emb = os.path.join(d, "embed_c07")
+    cases = gen_strip_cases(rng, nrandom)
+    toks = [d_tokens(x) for x, _ in cases]
+    # the depth bound: lists whose last car / dotted tail lies just below and just beyond what the copy reaches, and
+    # nesting just below and beyond what the predicate reaches (model = implementation there; the specification only
+    # speaks about data within the bound)
+    B0 = STRIP_BOUND
+    edge = []
+    for k in (B0 - 2, B0 - 1, B0, B0 + 1):
+        edge.append(("P L1 " * k + "C S3", "bound:dotted-tail-after-%d" % k))
+        edge.append(("P L1 " * (k - 1) + "P C S3 N", "bound:last-car-of-%d" % k))
+    for k in (B0 - 1, B0, B0 + 1):
+        edge.append(("P " * k + "C S3" + " N" * k, "bound:car-depth-%d" % k))
+    r = subprocess.run([emb], input="\n".join("strip " + t for t in toks + [t for t, _ in edge]) + "\n", capture_output=True, text=True,
+                       env=B.chibi_env(d), timeout=300)
+    io = r.stdout.split("\n")
+    if r.returncode != 0 or len(io) < len(toks) + len(edge):
+        ctx.broken("inner-correspondence:strip", "embedding harness died rc=%s after %d/%d answers: %s" % (r.returncode, len(io), len(toks) + len(edge), r.stderr[-300:]))
+        return
+    mo = ctx.run_model(exe, ["strip %d %s" % (B0, t) for t in toks + [t for t, _ in edge]])
+    shown = 0
+    for n, ((x, cls), t) in enumerate(zip(cases, toks)):
+        exp = d_tokens(d_strip(x))
+        i, m = io[n], mo[n]
+        ctx.count(1, key=("strip", t), nontrivial=("C" in t))
+        ctx.cov["traces_validated_against_impl"] += 1
+        if i == m == exp:
+            if shown < 2 and cls.startswith(("dotted-tail", "alist")):
+                ctx.sample(dict(kind="strip", datum=t, stripped=i, position=cls)); shown += 1
+            continue
+        replay = "printf '%%s\\n' 'strip %s' | LD_LIBRARY_PATH=%s %s   # prefix notation: P a d pair, N (), L<n> number, S<n> symbol, V<k> vector, C e closure; expected %s" % (t, d, emb, exp)
+        if i != exp:
+            ctx.violation("strip:" + cls, input=t, expected=exp, observed=i, model=m, replay=replay,
+                          why="strip-syntactic-closures (sexp_strip_synclos: contains-syntax? predicate, then copy) left a syntactic closure in quoted data "
+                              "or changed the datum; position class of the single closure: " + cls)
+        else:
+            ctx.broken("correspondence:strip", "model differs from sexp_strip_synclos and from the specification: %s model=%s impl=%s" % (t, m, i))
+    for n, (t, cls) in enumerate(edge):
+        i, m = io[len(toks) + n], mo[len(toks) + n]
+        ctx.count(1, key=("strip", cls), nontrivial=True)
+        if i != m:
+            ctx.broken("correspondence:strip:" + cls, "at the depth bound %d the model and sexp_strip_synclos differ: model=%s.. impl=%s.." % (B0, m[-40:], i[-40:]))
 
 
 # =====================================================================================================
@@ -271,6 +570,68 @@ ADVERSARIAL = ["if", "lambda", "let", "set!", "quote", "begin", "define", "else"
                "p", "q", "e1", "e2", "temps", "letrec-syntax", "it"]
 
 
+Q_SYMS = ["tag", "one", "two", "else", "t", "tmp", "if", "x", "loop", "quote"]
+
+
+def qdata_datum(rng):
+    """a datum whose symbols sit only at chosen positions: ('n', k) number, ('s', name) symbol, ('l', [items], tail|None)
+    list, ('v', [items]) vector.  Numbers / strings everywhere else, so that a syntax-rules template has closures ONLY
+    at those positions; for the er variant exactly the symbols are renamed."""
+    sym = lambda: ('s', rng.choice(Q_SYMS))
+    num = lambda: ('n', rng.randrange(0, 20))
+    nums = lambda k: [num() for _ in range(k)]
+    c = rng.randrange(9)
+    if c == 0:      # (0 . tag), (1 2 . tag)
+        return ('l', nums(rng.choice([1, 2, 3, 5])), sym())
+    if c == 1:      # association list with number keys: ((1 . one) (2 . two))
+        return ('l', [('l', [num()], sym()) for _ in range(rng.choice([1, 2, 3]))], None)
+    if c == 2:      # ... only one entry carries a symbol
+        n = rng.choice([2, 3, 4]); w = rng.randrange(n)
+        return ('l', [('l', [num()], sym() if e == w else num()) for e in range(n)], None)
+    if c == 3:      # vector slot first / middle / last
+        n = rng.choice([1, 2, 3, 5]); xs = nums(n); xs[rng.choice([0, n // 2, n - 1])] = sym()
+        return ('v', xs)
+    if c == 4:      # nested dotted tail
+        return ('l', [num(), ('l', nums(rng.choice([1, 2])), sym()), num()], None)
+    if c == 5:      # vector as dotted tail / vector inside a list
+        v = ('v', nums(1) + [sym()])
+        return ('l', nums(2), v) if rng.random() < 0.5 else ('l', [num(), v], None)
+    if c == 6:      # car at depth
+        x = sym()
+        for _ in range(rng.choice([1, 2, 3])):
+            x = ('l', [num(), x, num()], None)
+        return x
+    if c == 7:      # dotted tail inside a vector
+        return ('v', [num(), ('l', nums(2), sym())])
+    return ('l', [num(), ('l', [sym(), num()], sym())], None)
+
+
+def q_text(x):
+    t = x[0]
+    if t == 'n':
+        return str(x[1])
+    if t == 's':
+        return x[1]
+    if t == 'v':
+        return "#(%s)" % " ".join(q_text(y) for y in x[1])
+    return "(%s%s)" % (" ".join(q_text(y) for y in x[1]), "" if x[2] is None else " . " + q_text(x[2]))
+
+
+def q_build(x):
+    """expression building the datum inside an er-macro-transformer: symbols go through the renamer r"""
+    t = x[0]
+    if t == 'n':
+        return str(x[1])
+    if t == 's':
+        return "(r '%s)" % x[1]
+    if t == 'v':
+        return "(vector %s)" % " ".join(q_build(y) for y in x[1])
+    out = "'()" if x[2] is None else q_build(x[2])
+    for y in reversed(x[1]):
+        out = "(cons %s %s)" % (q_build(y), out)
+    return out
+
+
 class Gen:
     def __init__(self, rng):
         self.rng = rng
@@ -305,7 +666,7 @@ class Gen:
                   'builtin-or', 'builtin-cond', 'builtin-do', 'builtin-let*', 'named-let', 'getter', 'let-syntax',
                   'letrec-syntax', 'my-if', 'sc-or2', 'incby', 'builtin-case', 'builtin-and', 'local-define-syntax', 'when',
                   'else-var', 'else-var-builtin', 'kwlist', 'aif',
-                  'syn-sibling', 'syn-sibling', 'encl-kw', 'gen-ordered', 'gen-or', 'kw-after']
+                  'syn-sibling', 'syn-sibling', 'encl-kw', 'gen-ordered', 'gen-or', 'kw-after', 'qdata', 'qdata']
         s = rng.choice(shapes) if force is None else force
         self.shapes.add(s)
         E = lambda sc=scope, d=depth - 1: self.expr(sc, d)
@@ -424,6 +785,11 @@ class Gen:
             self.extra[T] = [(U, []), (GOR, []), (WITH, [])]     # the temporary spelled like the generated macro itself
             self.in_template |= {WITH, GOR, T, U}
             return ('mac', s, [d, WITH, WITH2, GOR, T, U, E()])
+        if s == 'qdata':
+            # quoted data in a template: the inserted (renamed) symbols sit at chosen positions only - dotted tails,
+            # cdrs of an alist with non-symbol keys, vector slots, nested - and must come out as plain symbols
+            kind = rng.choice(['sr', 'sr', 'er'])
+            return ('mac', s, [kind, qdata_datum(rng), E()])
         if s == 'aif':
             it = self.newvar()
             self.fixed[it] = 'it'
@@ -580,6 +946,16 @@ class Renderer:
         if s == 'kwlist':
             lst = "(list 'if 'tmp 'else %s '(t . loop) '#(else t))" % R(a[0])
             return "(if (equal? %s %s) 1 0)" % (lst if ref else "(kw-list %s)" % R(a[0]), lst)
+        if s == 'qdata':
+            kind, dat, e = a
+            txt = q_text(dat)
+            if ref:
+                return "(+ (if (equal? '%s '%s) 1 0) %s)" % (txt, txt, R(e))
+            if kind == 'sr':
+                spec = "(syntax-rules () ((_) '%s))" % txt
+            else:
+                spec = "(er-macro-transformer (lambda (e r c) (list (r 'quote) %s)))" % q_build(dat)
+            return "(+ (let-syntax ((qd %s)) (if (equal? (qd) '%s) 1 0)) %s)" % (spec, txt, R(e))
         if s == 'aif':
             it, test, then, alt = a
             if ref:
@@ -692,6 +1068,8 @@ def binders_with_scopes(e, out):
                 for y in x: walk(y)
         if s == 'builtin-case':
             binders_with_scopes(a[0], out); binders_with_scopes(a[2], out); binders_with_scopes(a[3], out)
+        elif s == 'qdata':
+            binders_with_scopes(a[2], out)
         elif s in ('swap', 'incby'):
             for x in a:
                 if isinstance(x, tuple): binders_with_scopes(x, out)
@@ -708,7 +1086,7 @@ def run_outer(ctx, d, nprog):
     run_corpus(ctx, d)
     exprs, meta = [], []
     FOCUS = ['syn-sibling', 'syn-sibling', 'encl-kw', 'kw-after', 'gen-ordered', 'gen-or', 'letrec-syntax', 'let-syntax',
-             'getter', 'local-define-syntax']
+             'getter', 'local-define-syntax', 'qdata', 'qdata', 'qdata']
     nfocus = max(40, nprog // 5)
     for p in range(nprog + nfocus):
         g = Gen(rng)
@@ -806,6 +1184,252 @@ def run_outer(ctx, d, nprog):
                           replay="cat > /tmp/c07.scm <<'EOF'\n(import (scheme base) (scheme write) (chibi))\n%s\n(write %s)(newline)\n(write %s)(newline)\nEOF\nchibi-scheme /tmp/c07.scm   # both lines must be equal" % (GLOBAL_MACROS, items[0][0], e))
         if (refo or "").startswith(("ERR", "CRASH", "TIMEOUT")):
             ctx.broken("outer-generator:C07", "reference program does not evaluate: %s -> %s" % (items[0][0], refo))
+
+
+# -----------------------------------------------------------------------------------------------------
+# K-outer (imports): programs whose user identifiers are IMPORTED (only / rename / prefix; (srfi 1), (scheme cxr),
+# (scheme char), a scratch library), used inside sc- / rsc- / er-macro-transformer and syntax-rules macros with and
+# without free names, whose templates introduce locals named like those imports.  Every program is a library
+# (c07 pN) in a scratch directory; imported bindings live in the RENAMES of the library's environment.
+# -----------------------------------------------------------------------------------------------------
+IMP_HELPERS = ["tmp", "first", "second", "last", "t", "loop", "k", "my-first", "my-pick1", "third", "caddr", "x", "digit-value", "helper"]
+IMP_SOURCES = [("(srfi 1)", "first", 0), ("(srfi 1)", "second", 1), ("(srfi 1)", "third", 2), ("(srfi 1)", "last", -1),
+               ("(scheme cxr)", "caddr", 2), ("(scheme cxr)", "cadddr", 3), ("(c07 util)", "pick1", 0), ("(c07 util)", "pick2", 1),
+               ("(c07 util)", "third-of", 2)]
+IMP_UTIL = """(define-library (c07 util) (export pick1 pick2 (rename pick3 third-of)) (import (scheme base))
+  (begin (define (pick1 l) (car l)) (define (pick2 l) (cadr l)) (define (pick3 l) (car (cddr l)))))
+"""
+
+
+def imp_macros(private_helper):
+    """the macro definitions; every template-introduced local is called like a name a user may import"""
+    locs = " ".join("(%s (lambda (v) 'captured-%s))" % (n, n) for n in IMP_HELPERS if n != "helper")
+    locs_er = " ".join("(,(rename '%s) (lambda (v) 'captured))" % n for n in IMP_HELPERS if n != "helper")
+    return """
+(define (%s x) (+ (* 2 x) 1))
+(define-syntax with-escape
+  (sc-macro-transformer
+   (lambda (exp env)
+     `(call-with-current-continuation
+       (lambda (exit)
+         (let (%s)
+           ,(make-syntactic-closure env '(exit) (cadr exp))))))))
+(define-syntax aif*
+  (sc-macro-transformer
+   (lambda (exp env)
+     (let ((test (make-syntactic-closure env '() (cadr exp)))
+           (then (make-syntactic-closure env '(it) (car (cddr exp))))
+           (alt (make-syntactic-closure env '() (cadr (cddr exp)))))
+       `(let ((it ,test) %s) (if it ,then ,alt))))))
+(define-syntax sc-plain
+  (sc-macro-transformer
+   (lambda (exp env) `(let (%s) ,(make-syntactic-closure env '() (cadr exp))))))
+(define-syntax er-wrap
+  (er-macro-transformer
+   (lambda (exp rename compare) `(,(rename 'let) (%s) ,(cadr exp)))))
+(define-syntax sr-wrap
+  (syntax-rules () ((_ body) (let (%s) body))))
+(define-syntax call-helper
+  (rsc-macro-transformer
+   (lambda (exp env) (list (make-syntactic-closure env '() '%s) (cadr exp)))))
+""" % (private_helper, locs, locs, locs, locs_er, locs, private_helper)
+
+
+class ImpGen:
+    def __init__(self, rng):
+        self.rng = rng
+        self.nimp = rng.choice([1, 2, 2, 3])
+        self.srcs = rng.sample(IMP_SOURCES, self.nimp)
+        self.nloc = 0
+        self.kinds = set()
+
+    def expr(self, depth, in_esc=False, in_aif=False, locs=()):
+        rng = self.rng
+        r = rng.random()
+        if depth <= 0 or r < 0.25:
+            q = rng.random()
+            if q < 0.6:
+                k = rng.randrange(self.nimp)
+                n = max(4, self.srcs[k][2] + 1)
+                return ('imp', k, [rng.randrange(0, 50) for _ in range(n)])
+            if q < 0.7 and in_aif:
+                return ('it',)
+            if q < 0.8 and locs:
+                return ('var', rng.choice(locs))
+            return ('num', rng.randrange(0, 9))
+        E = lambda d=depth - 1, esc=in_esc, aif=in_aif, l=locs: self.expr(d, esc, aif, l)
+        if r < 0.4:
+            return ('plus', E(), E())
+        if r < 0.55 and not in_esc:        # (a with-escape inside the body of another one is the recorded F-C07-2)
+            self.kinds.add('free-names')
+            return ('esc', self.expr(depth - 1, True, in_aif, locs))
+        if r < 0.62 and in_esc:
+            return ('exit', E())
+        if r < 0.72 and not in_aif:
+            self.kinds.add('free-names')
+            return ('aif', E(), self.expr(depth - 1, in_esc, True, locs), E())
+        if r < 0.80:
+            self.kinds.add('no-free-names')
+            return (rng.choice(['scplain', 'er', 'sr']), E())
+        if r < 0.86:
+            return ('helper', E())
+        if r < 0.94:
+            self.nloc += 1
+            v = self.nloc
+            return ('let', v, E(), self.expr(depth - 1, in_esc, in_aif, tuple(locs) + (v,)))
+        return ('plus', E(), E())
+
+
+def imp_render(e, inames, lnames, ref, st):
+    R = lambda x: imp_render(x, inames, lnames, ref, st)
+    t = e[0]
+    if t == 'num':
+        return str(e[1])
+    if t == 'imp':
+        return "(%s '(%s))" % (inames[e[1]], " ".join(str(v) for v in e[2]))
+    if t == 'it':
+        return st['it'] if ref else "it"
+    if t == 'var':
+        return lnames[e[1]]
+    if t == 'plus':
+        return "(+ %s %s)" % (R(e[1]), R(e[2]))
+    if t == 'let':
+        return "((lambda (%s) %s) %s)" % (lnames[e[1]], R(e[3]), R(e[2])) if ref else "(let ((%s %s)) %s)" % (lnames[e[1]], R(e[2]), R(e[3]))
+    if t == 'esc':
+        if not ref:
+            return "(with-escape %s)" % R(e[1])
+        st['g'] += 1
+        g = "g%d" % st['g']
+        old = st.get('exit'); st['exit'] = g
+        out = "(call-with-current-continuation (lambda (%s) %s))" % (g, R(e[1]))
+        st['exit'] = old
+        return out
+    if t == 'exit':
+        return "(%s %s)" % (st['exit'] if ref else "exit", R(e[1]))
+    if t == 'aif':
+        if not ref:
+            return "(aif* %s %s %s)" % (R(e[1]), R(e[2]), R(e[3]))
+        st['g'] += 1
+        g = "g%d" % st['g']
+        test = R(e[1])
+        old = st.get('it'); st['it'] = g
+        then = R(e[2])
+        st['it'] = old
+        return "((lambda (%s) (if %s %s %s)) %s)" % (g, g, then, R(e[3]), test)
+    if t in ('scplain', 'er', 'sr'):
+        return R(e[1]) if ref else "(%s %s)" % ({'scplain': 'sc-plain', 'er': 'er-wrap', 'sr': 'sr-wrap'}[t], R(e[1]))
+    if t == 'helper':
+        return "(+ (* 2 %s) 1)" % R(e[1]) if ref else "(call-helper %s)" % R(e[1])
+    raise ValueError(t)
+
+
+def imp_import_clause(src, name):
+    lib, orig, _ = src
+    if name == orig:
+        return "(only %s %s)" % (lib, orig), "only"
+    if name == "my-" + orig:
+        return "(prefix (only %s %s) my-)" % (lib, orig), "prefix"
+    if lib == "(c07 util)" and orig != "third-of":
+        return "(rename %s (%s %s))" % (lib, orig, name), "rename"        # the whole library, one name renamed
+    return "(rename (only %s %s) (%s %s))" % (lib, orig, orig, name), "rename"
+
+
+def run_outer_imports(ctx, d, nprog):
+    rng = ctx.rng
+    top = os.path.join(B.SCRATCH, "c07_imp_%d" % os.getpid())
+    libdir = os.path.join(top, "c07")
+    os.makedirs(libdir, exist_ok=True)
+    CHIBI = "(only (chibi) sc-macro-transformer rsc-macro-transformer er-macro-transformer make-syntactic-closure)"
+    try:
+        with open(os.path.join(libdir, "util.sld"), "w") as fh:
+            fh.write(IMP_UTIL)
+        with open(os.path.join(libdir, "macros.sld"), "w") as fh:
+            fh.write("(define-library (c07 macros) (export with-escape aif* sc-plain er-wrap sr-wrap call-helper)\n (import (scheme base) %s)\n (begin %s))\n"
+                     % (CHIBI, imp_macros("helper")))
+        progs, libs = [], []
+        def add(text):
+            libs.append(text)
+            return len(libs) - 1
+        for pn in range(nprog):
+            g = ImpGen(rng)
+            body = g.expr(rng.choice([2, 3, 3, 4]))
+            # make sure an imported procedure is used inside closed code with free names in most programs
+            if rng.random() < 0.7:
+                body = ('plus', ('esc', ('plus', ('imp', 0, [3, 1, 4, 1, 5]), ('exit', g.expr(1, True)))) if rng.random() < 0.5
+                        else ('aif', g.expr(1), ('plus', ('it',), g.expr(1, False, True)), ('num', 0)), body)
+                g.kinds.add('free-names')
+            external = rng.random() < 0.5            # the macros come from a library / are defined in the program itself
+            def program(inames, lnames, ref):
+                clauses = ["(scheme base)"]
+                styles = []
+                for src, n in zip(g.srcs, inames):
+                    c, st = imp_import_clause(src, n)
+                    clauses.append(c); styles.append(st)
+                if not ref:
+                    clauses.append("(c07 macros)" if external else CHIBI)
+                text = imp_render(body, inames, lnames, ref, {'g': 0})
+                defs = "" if (ref or external) else imp_macros("helper-0")
+                return "(export result)\n (import %s)\n (begin %s\n (define result %s))" % (" ".join(clauses), defs, text), styles
+            base_i = ["u%d" % k for k in range(g.nimp)]
+            base_l = {v: "w%d" % v for v in range(1, g.nloc + 1)}
+            ref_txt, _ = program(base_i, base_l, True)
+            base_txt, _ = program(base_i, base_l, False)
+            entry = dict(ref=add(ref_txt), base=add(base_txt), variants=[], kinds=sorted(g.kinds), external=external)
+            for _ in range(3):
+                pool = [n for n in IMP_HELPERS if external or n != "helper"]
+                inames, lnames, what = list(base_i), dict(base_l), []
+                used = set()
+                for k in rng.sample(range(g.nimp), rng.choice([1, 1, 2]) if g.nimp > 1 else 1):
+                    orig = g.srcs[k][1]
+                    cands = [n for n in pool if n not in used]
+                    # prefer the styles only / prefix when they are possible for this import
+                    pref = [n for n in cands if n == orig or n == "my-" + orig]
+                    n = rng.choice(pref) if (pref and rng.random() < 0.5) else rng.choice(cands)
+                    # an import spelled like ANOTHER import's original name would clash with nothing (only-imports)
+                    inames[k] = n; used.add(n); what.append((base_i[k], n))
+                for v in list(lnames):
+                    if rng.random() < 0.3:
+                        cands = [n for n in pool if n not in used]
+                        n = rng.choice(cands); lnames[v] = n; used.add(n); what.append((base_l[v], n))
+                txt, styles = program(inames, lnames, False)
+                entry['variants'].append((add(txt), what, styles))
+            progs.append(entry)
+        for n, text in enumerate(libs):
+            with open(os.path.join(libdir, "p%d.sld" % n), "w") as fh:
+                fh.write("(define-library (c07 p%d)\n %s)\n" % (n, text))
+        exprs = ["(eval 'result (environment '(c07 p%d)))" % n for n in range(len(libs))]
+        out = scm.run_cases(d, exprs, timeout=120, chunk=200,
+                            extra_env={"CHIBI_MODULE_PATH": os.path.join(d, "lib") + ":" + top})
+    finally:
+        import shutil
+        shutil.rmtree(top, ignore_errors=True)
+    shown = 0
+    def replay(a, b):
+        return ("mkdir -p /tmp/c07imp/c07 && cd /tmp/c07imp && cat > c07/util.sld <<'EOF'\n%sEOF\ncat > c07/macros.sld <<'EOF'\n(define-library (c07 macros) (export with-escape aif* sc-plain er-wrap sr-wrap call-helper)\n (import (scheme base) %s)\n (begin %s))\nEOF\n"
+                "cat > c07/a.sld <<'EOF'\n(define-library (c07 a)\n %s)\nEOF\ncat > c07/b.sld <<'EOF'\n(define-library (c07 b)\n %s)\nEOF\n"
+                "chibi-scheme -I /tmp/c07imp -e \"(import (scheme base) (scheme write) (prefix (c07 a) a-) (prefix (c07 b) b-))\" -e '(write (list a-result b-result))'   # both must be equal"
+                % (IMP_UTIL, CHIBI, imp_macros("helper"), libs[a], libs[b]))
+    for e in progs:
+        refo = out[e['ref']]
+        if (refo or "").startswith(("ERR", "CRASH", "TIMEOUT")):
+            ctx.broken("outer-generator:C07:imports", "reference program does not evaluate: %s -> %s" % (libs[e['ref']], refo))
+            continue
+        items = [(e['base'], None, None)] + e['variants']
+        for (n, what, styles) in items:
+            ctx.count(1, key=("imports", libs[n]), nontrivial=(what is not None))
+            if out[n] == refo:
+                if what is not None and shown < 2 and 'free-names' in e['kinds']:
+                    ctx.sample(dict(kind="outer-imports", program=libs[n], renaming=what, result=out[n])); shown += 1
+                continue
+            fn = "closed-with-free-names" if 'free-names' in e['kinds'] else "no-free-names"
+            if what is None:
+                sig = "outer:imports:macro-use-differs-from-hand-expansion:" + fn
+            else:
+                sig = "outer:imports:renaming-changes-result:%s:%s" % ("+".join(sorted(set(styles))), fn)
+            ctx.violation(sig, input=libs[n], expected=refo, observed=out[n], renaming=what, reference_program=libs[e['ref']],
+                          macros_from="(c07 macros)" if e['external'] else "the program itself", replay=replay(e['ref'], n),
+                          why="the user's identifiers are imported bindings (rename entries of the library environment); used inside a macro whose template "
+                              "binds locals of the same names they must still denote the imports")
 
 
 def run_corpus(ctx, d):
@@ -1281,9 +1905,11 @@ def run(ctx):
     if exe is None:
         return
     run_inner(ctx, d, exe, n_scen)
+    run_strip(ctx, d, exe, 150 if not ctx.thorough else 6000)
     run_renamer(ctx, d, exe, 120 if not ctx.thorough else 3000)
     run_mid(ctx, d, exe, n_mid)
     run_outer(ctx, d, n_prog)
+    run_outer_imports(ctx, d, 40 if not ctx.thorough else 1200)
     ctx.assume("closure and cell identity is modelled by allocation numbers (distinct objects have distinct numbers)")
     ctx.assume("a closure holds a snapshot of its environment: cyclic structures (a frame that contains, as a key, a closure over itself) are outside the model and the generator")
     ctx.assume("build configuration " + MODEL_CONFIG + " (checked against the scratch build by the harness)")
